@@ -402,9 +402,9 @@ func runAsm(m *model.Model, s *ob.Set) {
 		s.Check(why == "", R, "copy-order/"+hn, rel(t), "loads precede stores in every copy block", why)
 	}
 	// ---- A5c: def-before-use of registers and flags, per TEXT
-	asmContracts(f)
+	contracts := asmContracts(f)
 	for _, t := range f.texts {
-		bad, checked, unknown := asmDefUse(t)
+		bad, checked, unknown := asmDefUse(t, contracts)
 		if len(unknown) > 0 {
 			model.Fatal("ASM defuse: opcode(s) without a read/write signature: %s", strings.Join(unknown, ", "))
 		}
@@ -418,7 +418,7 @@ func runAsm(m *model.Model, s *ob.Set) {
 
 	// ---- A5d: dead register loads (informational)
 	for _, t := range f.texts {
-		bad, moves := asmDeadMoves(t)
+		bad, moves := asmDeadMoves(t, contracts)
 		c := "deadmove/" + t.name
 		if len(bad) == 0 {
 			s.Ok(R, c, rel(t), fmt.Sprintf("%d register loads, each read on some path before being overwritten", moves))
